@@ -1592,6 +1592,8 @@ class C19(DirectSpec):
             ("snapshot_whose_lowest_level_interleaves_the_children_of_different_parents", 2, "snapshot of a 3-level tree whose lowest level (in creation order) interleaves the children of different parents"),
             ("dumps_of_a_tree_on_which_reading_the_best_draws_from_the_global_generator", 3, "dumps of a tree holding NaN ties, where any look at the best would draw from random"),
             ("dumps_larger_than_128_KiB_with_a_plain_data_objective", 2, "snapshots > 128 KiB of trees whose objective is an instance of an importable plain-data class"),
+            ("snapshots_after_more_than_10000_evaluations_through_one_statistics_wrapper", 2, "snapshots taken after more than 10 000 evaluations had gone through one statistics wrapper"),
+            ("timings_of_statistics_wrappers_compared_after_load", 20, "statistics wrappers whose gathered timings were compared between the dumped and the loaded tree"),
             ("snapshot_at_0", 1, "snapshot at k=0"),
             ("snapshot_at_K", 1, "snapshot at k=K"),
             ("continued_run_sprouted_again", 1, "continued run that sprouted again after loading"),
